@@ -76,20 +76,19 @@ typedef struct
 
 /* ---- monitor invariant of a SyncReceiveBuffer (DESIGN C03), shared by the units ----
  * Ghost byte stream of a session: stream positions count the bytes the engine handed to onData for the session while it was in
- * Sync mode. `arr` = bytes arrived so far, `del` = bytes handed to a consumer so far (receiveSync result or flush callback),
- * `infl` = bytes a setReadMode flusher has taken out of the buffer under the lock but not yet passed to the data callback.
+ * Sync mode. `arr` = bytes arrived so far.
  * INV holds whenever syncMutex is free:
  *   I1  hasData == (data.size() > 0)                                   (INV-1 of the source)
  *   I3  data is the stream slice [lo, hi) with lo <= hi <= arr          (never bytes that did not arrive)
  *   I4  !overflow && !(shuttingDown && waiters == 0)  ==>  hi == arr    (lossless: every arrived byte is buffered or was delivered;
  *       during teardown a buffer without a parked reader stops buffering - receiveSync's entry fence keeps waiters at 0 from then on)
  *   I5  data.size() <= config.maxSyncReceiveBuffer                      (the configured bound is respected)
- *   I2  lo == del + infl; infl > 0 ==> flushing                         (reader side: the buffer starts at the first undelivered byte) */
+ * Reader side: consumers (receiveSync, the setReadMode flusher) only remove a PREFIX of the buffer under the lock (shim obligation SL3), so
+ * every byte leaves the buffer exactly once and in stream order; no separate "delivered" counter is needed. */
 #define STREAM_LIMIT ((size_t)1 << 62)     /* fewer than 2^62 bytes per session: position arithmetic does not wrap */
 #define SRB_INV(b, arr, sd, max) ((b)->data.lo <= (b)->data.hi && (b)->data.hi <= (arr) && (arr) <= STREAM_LIMIT \
   && (b)->hasData == ((b)->data.hi > (b)->data.lo) && (b)->data.hi - (b)->data.lo <= (max) \
   && ((b)->overflow || ((sd) && (b)->waiters == 0) || (b)->data.hi == (arr)))
-#define SRB_INV2(b, del, infl) ((del) <= (b)->data.lo && (b)->data.lo - (del) == (infl) && ((infl) == 0 || (b)->flushing))
 #define SAME_BUF(a, b) ((a).data.lo == (b).data.lo && (a).data.hi == (b).data.hi && (a).hasData == (b).hasData && (a).closed == (b).closed \
   && (a).waiters == (b).waiters && (a).flushing == (b).flushing && (a).overflow == (b).overflow)
 
